@@ -1184,6 +1184,7 @@ package sarama
 //@   ensures[strictly_increasing @C03] err == nil ==> forall a, b :: 0 <= a && a < b && b < len(msgs) ==> msgs[a].Offset < msgs[b].Offset
 //@   ensures[fresh_messages @C18] err == nil ==> forall k :: 0 <= k && k < len(msgs) ==> msgs[k].chained == 0 && msgs[k] != nil
 //@   ensures[offset_monotone @C03] child.offset >= old(child.offset)
+//@   ensures[nil_on_error] err != nil ==> len(msgs) == 0
 //@   ensures[delivered_below_offset @C03] err == nil ==> forall k :: 0 <= k && k < len(msgs) ==> msgs[k].Offset >= old(child.offset) && msgs[k].Offset < child.offset
 //@   loop 0: invariant child.offset >= old(child.offset)
 //@   loop 0: invariant forall k :: 0 <= k && k < len(messages) ==> messages[k].Offset >= old(child.offset) && messages[k].Offset < child.offset
@@ -1191,3 +1192,30 @@ package sarama
 //@   loop 0: invariant forall k :: 0 <= k && k < len(messages) ==> allocated(messages[k])
 //@   loop 0: invariant forall k :: 0 <= k && k < len(messages) ==> messages[k].chained == 0
 //@   nosafety
+
+// responseFeeder (C18 consumer side): every message handed to Messages() has had the interceptor chain
+// applied exactly once. msg.chained counts applications of the chain (one per call of child.interceptors).
+//@ func (child *partitionConsumer) responseFeeder() props C18
+//@   callsite interceptors: modifies $msg.chained
+//@   callsite interceptors: effect $msg.chained == old($msg.chained) + 1
+//@   requires 0 <= child.offset && child.offset < 2305843009213693952
+//@   callsite send.messages: requires[intercepted_exactly_once] $value.chained == 1
+//@   loop 1: invariant forall k :: $i <= k && k < len(msgs) ==> msgs[k].chained == 0
+//@   loop 1: invariant forall a, b :: 0 <= a && a < b && b < len(msgs) ==> msgs[a] != msgs[b]
+//@   loop messageSelect: invariant msg.chained == 1 && msg == msgs[i] && 0 <= i && i < len(msgs)
+//@   loop messageSelect: invariant forall k :: i < k && k < len(msgs) ==> msgs[k].chained == 0
+//@   loop messageSelect: invariant forall a, b :: 0 <= a && a < b && b < len(msgs) ==> msgs[a] != msgs[b]
+//@   loop 2: invariant forall k :: i + $i <= k && k < len(msgs) ==> msgs[k].chained == ite(k == i, 1, 0)
+//@   nosafety
+
+// A consumer interceptor may rewrite the exported fields of the message it is given, nothing else (A-iface).
+//@ func (i ConsumerInterceptor) OnConsume(m) trusted
+//@   modifies m.Headers, m.Timestamp, m.BlockTimestamp, m.Key, m.Value, m.Topic, m.Partition, m.Offset
+
+//@ func (msg *ConsumerMessage) safelyApplyInterceptor(interceptor) props C18
+//@   ensures[ghost_kept] msg.chained == old(msg.chained)
+//@   modifies msg.Headers, msg.Timestamp, msg.BlockTimestamp, msg.Key, msg.Value, msg.Topic, msg.Partition, msg.Offset
+
+//@ func (child *partitionConsumer) interceptors(msg) props C18
+//@   ensures[ghost_kept] msg.chained == old(msg.chained)
+//@   modifies msg.Headers, msg.Timestamp, msg.BlockTimestamp, msg.Key, msg.Value, msg.Topic, msg.Partition, msg.Offset
